@@ -99,6 +99,9 @@ DynamicS(inputTypes, sourceBlocks) ==
 WithDyn(blockS) == IF blockS.body = Nil THEN blockS
                    ELSE [blockS EXCEPT !.body = [blockS.body EXCEPT !.ext = [blockS.body.ext EXCEPT !.dyn = TRUE]]]
 
+TasOf(s) == IF "tas" \in DOMAIN s THEN s.tas ELSE <<>>
+AnyAddrOf(s) == IF "anyaddr" \in DOMAIN s THEN s.anyaddr ELSE Nil
+
 \* MergeBlockBodySchemas
 Effective(bs, blk) ==
   LET lk == Lookup(bs, blk)
@@ -109,12 +112,12 @@ Effective(bs, blk) ==
                blocks0 == Overlay(st.blocks, dblocks)
                blocks1 == IF st.ext.dyn /\ DOMAIN d.blocks # {}
                           THEN Overlay(blocks0, [x \in {"dynamic"} |-> DynamicS(DOMAIN d.blocks, blocks0)]) ELSE blocks0
-           IN  [schema |-> [attrs |-> Overlay(st.attrs, d.attrs), blocks |-> blocks1, any |-> st.any, ext |-> st.ext],
+           IN  [schema |-> [attrs |-> Overlay(st.attrs, d.attrs), blocks |-> blocks1, any |-> st.any, ext |-> st.ext, tas |-> TasOf(st) \o TasOf(d), anyaddr |-> AnyAddrOf(st)],
                 unknown |-> lk.res = "Partial", res |-> lk.res]
       ELSE LET blocks0 == IF st.ext.dyn /\ DOMAIN st.blocks # {} THEN [t \in DOMAIN st.blocks |-> WithDyn(st.blocks[t])] ELSE st.blocks
                blocks1 == IF st.ext.dyn /\ DOMAIN st.blocks # {}
                           THEN Overlay(blocks0, [x \in {"dynamic"} |-> DynamicS(DOMAIN blocks0, blocks0)]) ELSE blocks0
-           IN  [schema |-> [attrs |-> st.attrs, blocks |-> blocks1, any |-> st.any, ext |-> st.ext],
+           IN  [schema |-> [attrs |-> st.attrs, blocks |-> blocks1, any |-> st.any, ext |-> st.ext, tas |-> TasOf(st), anyaddr |-> AnyAddrOf(st)],
                 unknown |-> lk.res = "Failed", res |-> lk.res]
 
 \* ---- completion ----------------------------------------------------------------------------
